@@ -376,37 +376,57 @@ def check_flag_conditioned_liveness(res, db, entry: str, allowed: set, option_en
 
 
 # ------------------------------------------------------------------------------------------------ R-LIVE.7
-def cleared_then_written(db, entry):
-  """[(function, field, fill event, first later launch writing the field on a compatible path)] on the trace of entry."""
+def _full_launch_def(e, k) -> bool:
+  """the launch stores field k unconditionally (no data-dependent literal on the path) at the thread's own index"""
+  from .. import effects
+  from ..terms import T, pc_literals, subterms
+
+  if e.lc is None:
+    return False
+  own = tuple(T("tid", t) for t in range(e.lc.keval.ntid))
+  for a in e.lc.keval.accesses:
+    if a.kind == "w" and effects.array_key(e.lc, a.root) == k and len(a.idx) >= 1 and tuple(a.idx) == own[: len(a.idx)]:
+      if not any(any(s.op in ("ld", "at") for s in subterms(t)) for t, _ in pc_literals(a.pc)):
+        return True
+  return False
+
+
+def _is_full_def(e, k) -> bool:
+  return (e.ev.kind in ("fill", "copy") and k in e.writes) or (e.ev.kind == "launch" and k in e.writes and _full_launch_def(e, k))
+
+
+def init_then_partial_pairs(db, entry):
+  """{(function, field)}: a full definition of the field (host fill/copy, or a launch storing it unconditionally at the
+  thread's own index) inside the function is followed, on a compatible path, by a launch of the same function that writes
+  the field only partially or accumulates into it."""
   from .. import effects
 
   hi = db.trace(entry)
   effs = effects.trace_effects(db, hi)
-  out = []
+  out = set()
   for i, e in enumerate(effs):
-    if e.ev.kind != "fill":
-      continue
     fn = e.ev.stack[-1] if e.ev.stack else "?"
     for k in e.writes:
+      if not _is_full_def(e, k):
+        continue
       for j in range(i + 1, len(effs)):
         l = effs[j]
-        if l.ev.kind == "launch" and k in l.writes and fn in l.ev.stack and set(e.ev.pc) <= set(l.ev.pc):
-          out.append((fn, k, e, l))
+        if l.ev.kind == "launch" and k in l.writes and fn in l.ev.stack and set(e.ev.pc) <= set(l.ev.pc) and not _full_launch_def(l, k):
+          out.add((fn, k))
           break
-  return out, effs
+  return out
 
 
 def check_cleared_before_partial(res, db, entries, table) -> int:
-  """R-LIVE.7: the (function, field) pairs of tables/live_tables.CLEARED_BEFORE_PARTIAL are the places where today's tree
-  fully (re)defines a field on the host (zero_/fill_) before launches of the same function accumulate into it or write
-  it only partially (scatter, data-dependent guards). A later change that drops the clearing leaves the untouched cells
-  with the values of an earlier call. For every tabled pair whose function still runs on the trace and still launches a
-  kernel writing the field, a host-level full definition (fill/zero_/copy) of the field must dominate the first such
-  launch (its host path condition is a subset of the launch's), or the first writer must itself be a full definition:
-  an unconditional store at the thread's own index."""
+  """R-LIVE.7: tables/live_tables.INIT_BEFORE_PARTIAL lists the (function, field) pairs where today's tree fully
+  (re)defines a field - host zero_/fill_/copy, or an initialising launch that stores it unconditionally at the thread's
+  own index - before launches of the same function accumulate into it or write it only partially (scatter, data-dependent
+  guards, atomic counters). A later change that drops the initialisation leaves the untouched cells / the accumulator
+  with the values of an earlier call. For every tabled pair whose function still runs on the trace and still has a partial
+  writer of the field, some full definition inside the function must dominate a later partial writer (its host path
+  condition is a subset of the writer's)."""
   from .. import effects
   from ..report import Finding
-  from ..terms import T, pc_literals, subterms
 
   n = 0
   seen = set()
@@ -414,38 +434,30 @@ def check_cleared_before_partial(res, db, entries, table) -> int:
     hi = db.trace(entry)
     effs = effects.trace_effects(db, hi)
     for fn, k in sorted(table):
-      launches = [(j, l) for j, l in enumerate(effs) if l.ev.kind == "launch" and k in l.writes and fn in l.ev.stack]
-      if not launches or (fn, k) in seen:
+      if (fn, k) in seen:
+        continue
+      partial = [(j, l) for j, l in enumerate(effs) if l.ev.kind == "launch" and k in l.writes and fn in l.ev.stack and not _full_launch_def(l, k)]
+      if not partial:
         continue
       seen.add((fn, k))
       n += 1
       ok = False
-      j0, l0 = launches[0]
-      # a host-level full definition inside the same function that dominates a later writer launch (its host path
-      # condition is a subset of the launch's)
       for i, e in enumerate(effs):
-        if fn in e.ev.stack and e.ev.kind in ("fill", "copy") and k in e.writes:
-          if any(j > i and set(e.ev.pc) <= set(l.ev.pc) for j, l in launches):
+        if fn in e.ev.stack and _is_full_def(e, k):
+          if any(j > i and set(e.ev.pc) <= set(l.ev.pc) for j, l in partial):
             ok = True
             break
-      if not ok and l0.lc is not None:
-        # or the first writer is itself a full definition: unconditional (no data-dependent literal) store at own index
-        own = tuple(T("tid", t) for t in range(l0.lc.keval.ntid))
-        for a in l0.lc.keval.accesses:
-          if a.kind == "w" and effects.array_key(l0.lc, a.root) == k and tuple(a.idx) == own[: len(a.idx)] and len(a.idx) >= 1:
-            data_dep = any(any(s.op in ("ld", "at") for s in subterms(t)) for t, _ in pc_literals(a.pc))
-            if not data_dep:
-              ok = True
+      l0 = partial[0][1]
       res.ob(
         ok,
-        f"{fn}|{k}|cleared-first",
+        f"{fn}|{k}|initialised-first",
         Finding(
           "R-LIVE.7",
-          f"{fn}|{k}|not-cleared-before-partial-write",
-          f"{fn.split('.')[-1]}() used to clear {k} on the host before {l0.ev.name} writes it only partially / accumulates into it; no full definition dominates that launch any more, so cells the launch does not touch keep the values of an earlier call",
+          f"{fn}|{k}|not-initialised-before-partial-write",
+          f"{fn.split('.')[-1]}() used to (re)initialise {k} fully before {l0.ev.name} writes it only partially / accumulates into it; no full definition dominates a partial writer any more, so untouched cells (or the accumulator's start value) come from an earlier call",
           l0.ev.loc,
         ),
-        sample={"function": fn, "field": k, "first_partial_writer": l0.ev.name} if n % 8 == 1 else None,
+        sample={"function": fn, "field": k, "first_partial_writer": l0.ev.name} if n % 10 == 1 else None,
       )
   return n
 
